@@ -20,6 +20,7 @@ RULE = (
     "equal (1e-9); all six rates equal; for each of the six metrics and each target, if the materialised threshold lies within [min,max] of the "
     "relevant scored samples, the two thresholds agree (8 ulp + 1e-9*span). W1: k,m in 0..60 incl. (0,m),(k,0), 4 cfg, 12 score classes incl. "
     "ties, grid and off-grid targets; the declaring object is built by the constructor, or obtained by swap() from its mirror image (fresh, or after the parent answered threshold/EER/bootstrap queries), or queried in another order first. Non-trivial: k+m > 0; distinct = hash of inputs."
+    " Build-phase additions: thresholds in every scalar/array form, replaced/relabelled/from_labels/double-swap histories, narrow integer scores against wider integer thresholds outside their type's range."
 )
 ASSUMPTIONS = ["both classes non-empty, finite scores", "materialised extremes are distinct and at distance >= 0.5 from the scored range"]
 METRICS = ["tpr", "fnr", "tnr", "fpr", "topr", "tonr"]
